@@ -206,3 +206,162 @@ Proof.
   - clear x. induction r as [|z r IH]; [reflexivity|]. cbn [length seq map concat nth_error app]. f_equal.
     rewrite <- seq_shift, map_map. exact IH.
 Qed.
+
+(* ------------------------------------------------------------------ generate: the stack loop *)
+Lemma bind_ext {A B} (m : M A) (k1 k2 : A -> M B) ds :
+  (forall a d, k1 a d = k2 a d) -> bind m k1 ds = bind m k2 ds.
+Proof. intro H. unfold bind. destruct (m ds) as [[a d]|e]; [apply H|reflexivity]. Qed.
+
+Lemma d_choice_len {A} (l : list A) ds x ds' : d_choice l ds = Ok (x, ds') -> length ds = S (length ds').
+Proof.
+  unfold d_choice. destruct l as [|a l]; [discriminate|].
+  destruct ds as [|[] ds0]; try discriminate.
+  destruct ((n =? zlen (a :: l)) && (0 <=? i)); [|discriminate].
+  destruct (nth_error (a :: l) (Z.to_nat i)); [|discriminate].
+  intro H; inversion H; subst. reflexivity.
+Qed.
+
+Lemma instantiate_len n ds n' ds' : instantiate n ds = Ok (n', ds') -> (length ds' <= length ds)%nat.
+Proof.
+  unfold instantiate, bind, d_eph, ret. destruct (neph n).
+  - destruct ds as [|[] ds0]; try discriminate. destruct (N.eqb name (nname n)); [|discriminate].
+    intro H; inversion H; subst. cbn; lia.
+  - intro H; inversion H; subst. lia.
+Qed.
+
+(* the stopping condition does not put draws back *)
+Definition cond_mono (cnd : Z -> M bool) : Prop :=
+  forall d ds b ds', cnd d ds = Ok (b, ds') -> (length ds' <= length ds)%nat.
+
+Lemma condition_mono ps mode minh h : cond_mono (condition ps mode minh h).
+Proof.
+  intros d ds b ds'. unfold condition, bind, ret, d_random. destruct mode.
+  - intro H; inversion H; subst; lia.
+  - destruct (d =? h); [intro H; inversion H; subst; lia|].
+    destruct (minh <=? d); [|intro H; inversion H; subst; lia].
+    destruct ds as [|[] ds0]; try discriminate.
+    destruct ((0 <=? num) && (num <? Z.pos den)); [|discriminate].
+    intro H; inversion H; subst. cbn; lia.
+Qed.
+
+Lemma gen_loop_c_model ps mode minh h : forall fuel st acc ds,
+  gen_loop_c fuel ps (condition ps mode minh h) st acc ds = gen_loop fuel ps mode minh h st acc ds.
+Proof.
+  induction fuel as [|f IH]; intros st acc ds; destruct st as [|[d t] st]; try reflexivity.
+  cbn [gen_loop_c gen_loop]. unfold bind.
+  destruct (condition ps mode minh h d ds) as [[c ds1]|]; [|reflexivity].
+  destruct c.
+  - destruct (d_choice (terms ps t) ds1) as [[term ds2]|]; [|reflexivity].
+    destruct (instantiate term ds2) as [[term' ds3]|]; [|reflexivity]. apply IH.
+  - destruct (d_choice (prims ps t) ds1) as [[prim ds2]|]; [|reflexivity]. apply IH.
+Qed.
+
+Lemma gen_loop_c_fuel ps cnd : cond_mono cnd -> forall f1 f2 st acc ds,
+  (length ds < f1)%nat -> (length ds < f2)%nat ->
+  gen_loop_c f1 ps cnd st acc ds = gen_loop_c f2 ps cnd st acc ds.
+Proof.
+  intro Hm. induction f1 as [|f1 IH]; intros f2 st acc ds H1 H2; [lia|].
+  destruct f2 as [|f2]; [lia|]. destruct st as [|[d t] st]; [reflexivity|].
+  cbn [gen_loop_c]. unfold bind.
+  destruct (cnd d ds) as [[c ds1]|] eqn:Ec; [|reflexivity]. apply Hm in Ec.
+  destruct c.
+  - destruct (d_choice (terms ps t) ds1) as [[term ds2]|] eqn:E1; [|reflexivity]. apply d_choice_len in E1.
+    destruct (instantiate term ds2) as [[term' ds3]|] eqn:E2; [|reflexivity]. apply instantiate_len in E2.
+    apply IH; lia.
+  - destruct (d_choice (prims ps t) ds1) as [[prim ds2]|] eqn:E1; [|reflexivity]. apply d_choice_len in E1.
+    apply IH; lia.
+Qed.
+
+Lemma m_generate_model ps mode mn mx t ds :
+  m_generate ps mn mx (condition ps mode mn) (Some t) ds = generate ps mode mn mx t ds.
+Proof.
+  unfold m_generate, generate, bind. destruct (d_randint mn mx ds) as [[h ds1]|]; [|reflexivity].
+  apply gen_loop_c_model.
+Qed.
+
+Section WhileGen.
+  Variable ps : pset.
+  Variable cnd : Z -> M bool.
+  Let state := (ty * list (Z * ty) * list node)%type.
+  Variable wcond : state -> bool.
+  Variable body : state -> M state.
+  Hypothesis Hcond : forall t st ex, wcond (t, st, ex) = negb (len st =? 0).
+  (* one iteration, in Python order: pop the last (depth, type) pair, ask the condition, append a terminal
+     (instantiated when ephemeral) or a primitive whose argument types are pushed in reverse order *)
+  Hypothesis Hbody : forall t st ex ds,
+    body (t, st, ex) ds =
+    bind (pop_last st) (fun p =>
+      bind (cnd (fst (fst p))) (fun c =>
+        if c then
+          bind (d_choice (terms ps (snd (fst p)))) (fun term =>
+          bind (instantiate term) (fun term' => ret (snd (fst p), snd p, ex ++ [term'])))
+        else
+          bind (d_choice (prims ps (snd (fst p)))) (fun prim =>
+          ret (snd (fst p), snd p ++ rev (map (fun a => (fst (fst p) + 1, a)) (nargs prim)), ex ++ [prim])))) ds.
+
+  Lemma while_gen (k : state -> M (list node)) : (forall s ds, k s ds = ret (snd s) ds) ->
+    forall fuel st acc t ds,
+    bind (while_fuel fuel wcond body (t, rev st, rev acc)) k ds = gen_loop_c fuel ps cnd st acc ds.
+  Proof.
+    intro Hk. induction fuel as [|f IH]; intros st acc t ds.
+    - cbn [while_fuel gen_loop_c]. rewrite Hcond. destruct st as [|[d t'] st].
+      + cbn. unfold bind, ret. now rewrite Hk.
+      + replace (negb (len (rev ((d, t') :: st)) =? 0)) with true; [reflexivity|].
+        unfold len. rewrite rev_length. cbn [length]. symmetry. apply negb_true_iff. lia.
+    - cbn [while_fuel gen_loop_c]. rewrite Hcond. destruct st as [|[d t'] st].
+      + cbn. unfold bind, ret. now rewrite Hk.
+      + replace (negb (len (rev ((d, t') :: st)) =? 0)) with true.
+        2:{ unfold len. rewrite rev_length. cbn [length]. symmetry. apply negb_true_iff. lia. }
+        unfold bind in IH |- *. rewrite Hbody. unfold bind, pop_last. rewrite rev_involutive.
+        unfold ret. cbn [fst snd].
+        destruct (cnd d ds) as [[c ds1]|]; [|reflexivity].
+        destruct c.
+        * destruct (d_choice (terms ps t') ds1) as [[term ds2]|]; [|reflexivity].
+          destruct (instantiate term ds2) as [[term' ds3]|]; [|reflexivity].
+          change (rev acc ++ [term']) with (rev (term' :: acc)).
+          exact (IH st (term' :: acc) t' ds3).
+        * destruct (d_choice (prims ps t') ds1) as [[prim ds2]|]; [|reflexivity].
+          change (rev acc ++ [prim]) with (rev (prim :: acc)).
+          rewrite <- rev_app_distr.
+          exact (IH _ (prim :: acc) t' ds2).
+  Qed.
+End WhileGen.
+
+Lemma bind_cong_ok {A B} (m : M A) (k1 k2 : A -> M B) ds :
+  (forall a d, m ds = Ok (a, d) -> k1 a d = k2 a d) -> bind m k1 ds = bind m k2 ds.
+Proof. intro H. unfold bind. destruct (m ds) as [[a d]|e]; [now apply H|reflexivity]. Qed.
+
+Lemma cond_mono_ext (c1 c2 : Z -> M bool) : (forall d ds, c1 d ds = c2 d ds) -> cond_mono c2 -> cond_mono c1.
+Proof. intros H Hm d ds b ds' E. rewrite H in E. now apply Hm in E. Qed.
+
+Lemma gen_loop_c_ext ps (c1 c2 : Z -> M bool) : (forall d ds, c1 d ds = c2 d ds) ->
+  forall fuel st acc ds, gen_loop_c fuel ps c1 st acc ds = gen_loop_c fuel ps c2 st acc ds.
+Proof.
+  intro H. induction fuel as [|f IH]; intros st acc ds; destruct st as [|[d t] st]; try reflexivity.
+  cbn [gen_loop_c]. unfold bind. rewrite H.
+  destruct (c2 d ds) as [[c ds1]|]; [|reflexivity].
+  destruct c.
+  - destruct (d_choice (terms ps t) ds1) as [[term ds2]|]; [|reflexivity].
+    destruct (instantiate term ds2) as [[term' ds3]|]; [|reflexivity]. apply IH.
+  - destruct (d_choice (prims ps t) ds1) as [[prim ds2]|]; [|reflexivity]. apply IH.
+Qed.
+
+(* generate with a stopping condition that is, pointwise, the model's condition for [mode] *)
+Lemma m_generate_model' ps mode mn mx (cond : Z -> Z -> M bool) t ds :
+  (forall h d ds, cond h d ds = condition ps mode mn h d ds) ->
+  m_generate ps mn mx cond t ds = generate ps mode mn mx (match t with Some x => x | None => p_ret ps end) ds.
+Proof.
+  intro H. unfold m_generate, generate, bind. destruct (d_randint mn mx ds) as [[h ds1]|]; [|reflexivity].
+  rewrite (gen_loop_c_ext ps (cond h) (condition ps mode mn h)) by (intros; apply H).
+  apply gen_loop_c_model.
+Qed.
+
+Lemma d_choice_map {A B} (f : A -> B) l ds :
+  d_choice (map f l) ds = bind (d_choice l) (fun x => ret (f x)) ds.
+Proof.
+  unfold d_choice, bind, ret. destruct l as [|a l]; [reflexivity|]. cbn [map].
+  destruct ds as [|[] r]; try reflexivity.
+  change (f a :: map f l) with (map f (a :: l)). unfold zlen. rewrite map_length.
+  destruct ((n =? Z.of_nat (length (a :: l))) && (0 <=? i)); [|reflexivity].
+  rewrite nth_error_map. destruct (nth_error (a :: l) (Z.to_nat i)); reflexivity.
+Qed.
